@@ -5,6 +5,9 @@
 #include <pika/synchronization/detail/condition_variable.hpp>
 #include <pika/concurrency/spinlock.hpp>
 #include <pika/mutex.hpp>
+#include <pika/condition_variable.hpp>
+#include <chrono>
+#include <thread>
 #include <pika/thread.hpp>
 #include <mutex>
 
@@ -184,6 +187,53 @@ static void two_wakers()
     pmc_outcome("resumed=%d", s.resumed);
 }
 
+// a timed wait (a yield-until-deadline loop of "boosted" yields underneath) that is notified: the waiter must
+// come back - by the notification or, at the latest, by its deadline
+template <int WAKER_EXTERNAL>
+static void timed_wait_wake()
+{
+    static St s;
+    s = St{};
+    g = &s;
+    auto& m = *new pika::mutex;
+    auto& cv = *new pika::condition_variable;
+    pmc_watch(&cv, sizeof cv, "cond");
+    pmc_on_stuck(on_stuck);
+    static int flag, result;
+    flag = 0;
+    result = -1;
+    rt::start();
+    rt::spawn([&] {
+        rt::watch_self("S0");
+        std::unique_lock<pika::mutex> l(m);
+        s.registered = 1;
+        uint64_t deadline = pmc_now() + 50000000ull;
+        pmc_deadline(deadline);
+        result = (int) cv.wait_for(l, std::chrono::milliseconds(50), [] { return flag != 0; });
+        PMC_ASSERT(result == flag, "timed-wait-result", "wait_for(pred) returned %d while the predicate is %d (lock held)", result, flag);
+        s.resumed = 1;
+        l.unlock();
+        ++s.finished;
+    });
+    auto waker = [&](bool task) {
+        int guard = 0;
+        while (!s.registered && ++guard < 300) { if (task) pika::this_thread::yield(); else sched_yield(); }
+        {
+            std::unique_lock<pika::mutex> l(m);
+            flag = 1;
+        }
+        cv.notify_one();
+        s.issued = 1;
+        pmc_progress();
+        ++s.finished;
+    };
+    if (WAKER_EXTERNAL) { std::thread t([&] { waker(false); }); t.join(); }
+    else rt::spawn([&] { rt::watch_self("waker"); waker(true); });
+    rt::stop();
+    PMC_ASSERT(s.resumed == 1 && s.finished == 2, "lost-wakeup", "a notified timed wait never returned (resumed=%d finished=%d)", s.resumed, s.finished);
+    pmc_outcome("resumed=%d", s.resumed);
+}
+
 int main(int argc, char** argv)
 {
     static const char* sites = "set_thread_state|set_active_state|execution_agent::do_(yield|resume)|detail::condition_variable::(wait|notify_one)|create_work|scheduling_loop.hpp:(9[0-9]|1[01][0-9])";
@@ -194,6 +244,7 @@ int main(int argc, char** argv)
         {"cv_task_waker_busy", cv_wake<0, 1, 1>, 1, 2, 0.15, 0.2, 1, focus, sites, "src"},
         {"cv_two_waiters", cv_wake<0, 0, 2>, 1, 2, 0.15, 0.15, 1, focus, sites, "src"},
         {"mutex_unlock_wakes", mutex_wake<0>, 1, 2, 0.15, 0.15, 1, "F-addr: pika::mutex + state words; same F-site set", sites, "src"},
+        {"timed_wait_notified", timed_wait_wake<0>, 1, 2, 0.15, 0.1, 1, focus, sites, "src"},
         {"two_wakers_signal_abort", two_wakers<0>, 2, 3, 0.2, 0.2, 1, focus, sites, "src"},
         {"two_wakers_signal_abort_ext", two_wakers<1>, 2, 3, 0.15, 0.15, 1, focus, sites, "src"},
     };
